@@ -214,6 +214,105 @@ def a1_slots_never_shrink(prog):
     return r
 
 
+def p8_whole_chain(prog, f, src_p):
+    """Allocator::clone / clone_from with Slot::/Location::clone_with_new_identifier (and closures) walked inline:
+    every new slot is Slot{source generation, None | Some(Location{IMAGE(old identifier), old index})} for the slots of
+    the source in order, where IMAGE is a lookup of the old identifier in an identifier-map parameter, or the
+    application of a closure parameter whose argument at every call site of f is such a lookup. -> (ok, reason)"""
+    S = pathsem.strip_refs
+    LOC, SLOT = 'entity::allocator::location::Location', 'entity::allocator::slot::Slot'
+    slots_i = adt_field_index(prog, 'entity::allocator::Allocator', 'slots')
+    g_, l_ = adt_field_index(prog, SLOT, 'generation'), adt_field_index(prog, SLOT, 'location')
+    li_, lx_ = adt_field_index(prog, LOC, 'identifier'), adt_field_index(prog, LOC, 'index')
+    E = pathsem.analyse(prog, f, inline=lambda c: c.name == 'clone_with_new_identifier' or (c.name == 'new' and 'location::Location' in c.path), max_paths=20000)
+    rets = [p for p in E.paths if p.ended == 'return']
+    if E.truncated or not rets:
+        return False, 'not analysable'
+    n_some = 0
+    closure_params = set()
+    for p in rets:
+        for ce in [e for e in p.events if e['k'] == 'consume_end']:
+            x = ce['elem']
+            if not (isinstance(x, tuple) and x[0] == 'agg' and x[1] == SLOT):
+                continue
+            gen, loc = x[4][g_], x[4][l_]
+            # where the new slots go: the returned allocator's slots (clone) / the destination's, emptied first (clone_from)
+            cons = [e for e in p.calls(lambda e: e.get('consumer')) if e['i'] < ce['i']]
+            c_ = cons[-1] if cons else None
+            if src_p == 1:
+                if not (c_ is not None and isinstance(p.ret, tuple) and p.ret[0] == 'agg' and len(p.ret[4]) > slots_i and p.ret[4][slots_i] == c_['ret']):
+                    return False, 'the remapped slots do not become the new allocator\'s slots'
+            else:
+                dst_ok = c_ is not None and pathsem.is_field_of(c_['args'][0], 'entity::allocator::Allocator', slots_i) and pathsem.mentions(c_['args'][0], lambda t: t[0] == 'p' and t[1] == 1)
+                cleared = dst_ok and any(e['name'] == 'clear' and e['i'] < c_['i'] and pathsem.is_field_of(e['args'][0], 'entity::allocator::Allocator', slots_i) for e in p.calls(lambda e: e['name'] == 'clear'))
+                if not (dst_ok and cleared):
+                    return False, 'the remapped slots do not replace the destination allocator\'s slots'
+            els = [t for t in pathsem.subterms(gen) if isinstance(t, tuple) and t[0] == 'elem']
+            if not els:
+                return False, 'the generation of a new slot is not the source slot\'s'
+            el = els[0]
+            root, kinds = pathsem.iter_chain(el[1])
+            rt = root
+            while isinstance(rt, tuple) and rt[0] == 'call' and rt[1].rsplit('::', 1)[-1] in ('deref', 'as_slice', 'as_ref', 'borrow') and rt[2]:
+                rt = S(rt[2][0])
+            if not (pathsem.is_field_of(rt, 'entity::allocator::Allocator', slots_i) and pathsem.mentions(rt, lambda t: t[0] == 'p' and t[1] == src_p)
+                    and all(k in ('iter', 'into_iter', 'map', 'by_ref', 'copied', 'cloned', 'inspect', 'deref') for k in kinds)):
+                return False, 'new slots are not produced from the source slots in order'
+            if not (pathsem.is_field_of(gen, SLOT, g_) and pathsem.mentions(gen, lambda u: u == el)):
+                return False, 'a new slot does not keep the source slot\'s generation'
+            if loc == pathsem.NONE:
+                continue
+            if not (isinstance(loc, tuple) and loc[0] == 'agg' and loc[2] == 'Some' and isinstance(loc[4][0], tuple) and loc[4][0][0] == 'agg' and loc[4][0][1] == LOC):
+                return False, 'cannot see the location of a new active slot (%s)' % pathsem.tstr(loc)[:60]
+            ident, index = loc[4][0][4][li_], loc[4][0][4][lx_]
+            if not (pathsem.is_field_of(index, LOC, lx_) and pathsem.mentions(index, lambda u: u == el)):
+                return False, 'the row index of a cloned location is not the source location\'s'
+
+            def old_id(t):
+                return pathsem.is_field_of(t, LOC, li_) and pathsem.mentions(t, lambda u: u == el)
+            looked = [t for t in pathsem.subterms(ident) if t[0] == 'call' and 'HashMap' in t[1] and t[1].rsplit('::', 1)[-1] in ('get', 'get_unchecked', 'index', 'get_key_value') and len(t[2]) >= 2
+                      and S(t[2][0])[0] == 'p' and old_id(t[2][1])]
+            applied = [t for t in pathsem.subterms(ident) if t[0] == 'call' and t[1] == 'indirect' and len(t[2]) == 2 and old_id(t[2][1])]
+            if looked:
+                n_some += 1
+            elif applied:
+                c = applied[0][2][0]
+                while isinstance(c, tuple) and c[0] in ('r', 'd'):
+                    c = c[1]
+                k = c[2] if isinstance(c, tuple) and c[0] == 'L' and c[1] == 0 else (c[1] if isinstance(c, tuple) and c[0] == 'p' else None)
+                if not isinstance(k, int):
+                    return False, 'the identifier of a cloned location comes from an unknown function value'
+                closure_params.add(k)
+                n_some += 1
+            else:
+                return False, 'the identifier of a cloned location is not the image of the old identifier under the identifier map'
+    if not n_some:
+        return False, 'no path remaps the location of an active slot'
+    for k in closure_params:
+        callers = [g for g in prog.fns.values() if g.kind != 'Closure' and any(True for _ in g.body.calls(lambda c: (c.get('res') or c).get('dp') == f.dp or c.get('dp') == f.dp))]
+        if not callers:
+            return False, 'the identifier translation is a parameter and no caller was found'
+        for g in callers:
+            Eg = pathsem.analyse(prog, g, max_paths=20000)
+            for p in Eg.paths:
+                for e in p.calls(lambda e: e['path'] == f.path):
+                    a = e['vals'][k - 1] if k - 1 < len(e['vals']) else None
+                    a = S(a) if a is not None else None
+                    if not (isinstance(a, tuple) and a[0] == 'agg' and isinstance(a[1], str) and a[1].startswith('closure:')):
+                        return False, '%s passes something other than a closure as the identifier translation' % g.name
+                    cf = prog.fns.get(a[1][len('closure:'):])
+                    if cf is None:
+                        return False, 'closure body not found'
+                    Ec = pathsem.analyse(prog, cf)
+                    arg = ('p', 2, cf.body.local_name(2) or '')
+                    for q in Ec.paths:
+                        if q.ended != 'return':
+                            continue
+                        if not pathsem.mentions(q.ret, lambda t: isinstance(t, tuple) and t[0] == 'call' and 'HashMap' in t[1] and t[1].rsplit('::', 1)[-1] in ('get', 'get_unchecked', 'index') and len(t[2]) >= 2 and pathsem.mentions(t[2][1], lambda u: u == arg)):
+                            return False, 'the identifier translation %s passes is not a lookup of its argument in the identifier map' % g.name
+    return True, None
+
+
 @rule('P8', props=['C10', 'C02', 'C05', 'C13', 'C16'], floor=4)
 def p8_clone_remap(prog):
     """Allocator::{clone, clone_from} produce slots only through Slot::clone_with_new_identifier; the
@@ -333,6 +432,21 @@ def p8_clone_remap(prog):
                     bad = bad or 'an active slot\'s location is not remapped through Location::clone_with_new_identifier(.., identifier_map)'
             if bad or not remapped:
                 r.viol('P8', '%s/location-not-remapped' % f.path, f.loc(), bad or 'Slot::clone_with_new_identifier does not remap its location')
+    # the three function-by-function clauses above assume the map travels down the chain as a `&HashMap`; when they do
+    # not hold, decide the same property on the chain walked as a whole (the lookup may sit at another level)
+    CHAIN = ('/no-remap', '/identifier-not-remapped', '/location-not-remapped')
+    if any(v.key.endswith(CHAIN) for v in r.violations):
+        verdicts = []
+        for name, src_p in (('clone', 1), ('clone_from', 2)):
+            cands = [f for f in prog.fns.values() if f.name == name and f.path.startswith('entity::allocator::Allocator')]
+            verdicts.append(p8_whole_chain(prog, cands[0], src_p) if len(cands) == 1 else (False, 'missing'))
+        if all(ok for ok, _ in verdicts):
+            r.violations = [v for v in r.violations if not v.key.endswith(CHAIN)]
+        else:
+            why = next(w for ok, w in verdicts if not ok)
+            for v in r.violations:
+                if v.key.endswith(CHAIN):
+                    v.msg += ' [walked as a whole: %s]' % why
     return r
 
 
